@@ -1,3 +1,42 @@
+import random
+
 from harness.props._engine_common import make
 
-explore, search, replay = make({"C04"})
+GEN = ["Engine", "Queues"]
+
+
+def queue_diff(ctx, replay=None):
+    """T2: the transcribed RandomQueue._put/_get (Lean) vs the real class, with random.randrange pinned."""
+    import uberjob._execution.scheduler as sch
+    rng = random.Random(ctx.seed * 17 + 1)
+    n = 300 if ctx.tier == "quick" else 6000
+    lines, want = [], []
+    real_randrange = sch.random.randrange
+    real_shuffle = sch.random.shuffle
+    try:
+        for _ in range(n):
+            q0 = [rng.randrange(50) for _ in range(rng.randint(0, 7))]
+            item, r = rng.randrange(50), rng.randrange(1000)
+            sch.random.shuffle = lambda l: None
+            q = sch.RandomQueue(q0)
+            sch.random.randrange = lambda k, _r=r: _r % k
+            q._put(item)
+            lines.append("rq put %s | %d %d" % (" ".join(map(str, q0)), item, r))
+            want.append(" ".join(map(str, q.queue)))
+            before = list(q.queue)
+            got = q._get()
+            lines.append("rq get %s" % " ".join(map(str, before)))
+            want.append("%d | %s" % (got, " ".join(map(str, q.queue))))
+    finally:
+        sch.random.randrange = real_randrange
+        sch.random.shuffle = real_shuffle
+    dis = []
+    if ctx.driver is not None:
+        for line, w, g in zip(lines, want, ctx.driver.batch(lines)):
+            if w.strip() != g.strip():
+                dis.append({"layer": "random-queue", "request": line, "impl": w, "model": g})
+                break
+    return {"violations": [], "disagreements": dis, "coverage": {"random_queue_ops": len(lines)}}
+
+
+explore, search, replay = make({"C04"}, extra=queue_diff)
